@@ -1305,8 +1305,19 @@ _cmp_min_int = cmp_min
 _cmp_max_int = cmp_max
 
 
+def _bits_pick(m, a, b, want_min, sp):
+    from machine import bits_compare
+    le = m.truth(bits_compare("Le", a, b), sp, "min/max of bit patterns")
+    if want_min:
+        return a if le else b
+    return b if le else a
+
+
 def cmp_min2(m, ref, args, t, sp):
     a, b = args
+    from machine import VBits
+    if isinstance(a, VBits) and isinstance(b, VBits) and a.signed == b.signed:
+        return _bits_pick(m, a, b, True, sp)
     if isinstance(a, VStruct) and isinstance(b, VStruct) and a.path.endswith("FloatOrd"):
         return _floatord_pick(m, a, b, True, sp)
     return _cmp_min_int(m, ref, args, t, sp)
@@ -1314,6 +1325,9 @@ def cmp_min2(m, ref, args, t, sp):
 
 def cmp_max2(m, ref, args, t, sp):
     a, b = args
+    from machine import VBits
+    if isinstance(a, VBits) and isinstance(b, VBits) and a.signed == b.signed:
+        return _bits_pick(m, a, b, False, sp)
     if isinstance(a, VStruct) and isinstance(b, VStruct) and a.path.endswith("FloatOrd"):
         return _floatord_pick(m, a, b, False, sp)
     return _cmp_max_int(m, ref, args, t, sp)
@@ -1357,6 +1371,24 @@ def float_powi(m, ref, args, t, sp):
 def float_clamp(m, ref, args, t, sp):
     x, lo, hi = [load(m, v) for v in args]
     if is_float(x) and is_float(lo) and is_float(hi):
+        # f64::clamp panics unless min <= max.  Decided through the order store when it can; when the two bounds
+        # are computed quantities that COINCIDE over the reals (each rounded on its own) the order is a matter of
+        # rounding: the panic is reachable (the fragile-assertion argument of R-DASSERT (c))
+        if F.is_lit(lo) and F.is_lit(hi):
+            if not (F.litval(lo) <= F.litval(hi)):
+                raise PathEnd("panic", {"kind": "clamp: min > max", "span": sp, "fn": m.stack[-1] if m.stack else None, "stack": list(m.stack)})
+        elif m.order.decide("Le", lo, hi) is not True and not (F.is_lit(lo) or F.is_lit(hi)):
+            same = False
+            try:
+                import pit
+                same, _ = pit.identical([("clamp-bounds", lo, hi)], seed=5, points=3, squares=False)
+            except Exception:
+                same = False
+            if same:
+                m.notes.append(("clamp-fragile", sp, F.show(lo)[:80], F.show(hi)[:80], m.stack[-1] if m.stack else None))
+                raise PathEnd("panic", {"kind": "clamp: the bounds %s and %s coincide over the reals and are rounded separately, so min > max "
+                                                "happens by one ulp and f64::clamp panics" % (F.show(lo)[:60], F.show(hi)[:60]),
+                                        "span": sp, "fn": m.stack[-1] if m.stack else None, "stack": list(m.stack)})
         return F.fn("max", F.fn("min", x, hi), lo)
     return ("opq", m.new_name("clamp"))
 
@@ -2496,10 +2528,16 @@ def f64_to_bits(m, ref, args, t, sp):
     v = load(m, args[0])
     if is_float(v) and F.is_lit(v):
         return v[1]
+    if is_float(v) and m.order.nan_status(v) is False:
+        from machine import VBits
+        return VBits(v, False, m.new_name("bits(%s)" % F.show(v)[:40]))
     return VOpaque("int", m.new_name("bits(%s)" % (F.show(v)[:40] if is_float(v) else "?")))
 
 
 def f64_from_bits(m, ref, args, t, sp):
+    from machine import VBits
+    if isinstance(args[0], VBits):
+        return args[0].src
     v = simp(args[0])
     if isinstance(v, int) and 0 <= v < 2**64:
         return ("lit", v)
